@@ -27,16 +27,16 @@ import (
 
 // ---- real hellos of every parrot ----
 
-type nullConn struct{}
+type nullConn_c34 struct{}
 
-func (nullConn) Read(p []byte) (int, error)         { return 0, io.EOF }
-func (nullConn) Write(p []byte) (int, error)        { return len(p), nil }
-func (nullConn) Close() error                       { return nil }
-func (nullConn) LocalAddr() net.Addr                { return nil }
-func (nullConn) RemoteAddr() net.Addr               { return nil }
-func (nullConn) SetDeadline(t time.Time) error      { return nil }
-func (nullConn) SetReadDeadline(t time.Time) error  { return nil }
-func (nullConn) SetWriteDeadline(t time.Time) error { return nil }
+func (nullConn_c34) Read(p []byte) (int, error)         { return 0, io.EOF }
+func (nullConn_c34) Write(p []byte) (int, error)        { return len(p), nil }
+func (nullConn_c34) Close() error                       { return nil }
+func (nullConn_c34) LocalAddr() net.Addr                { return nil }
+func (nullConn_c34) RemoteAddr() net.Addr               { return nil }
+func (nullConn_c34) SetDeadline(t time.Time) error      { return nil }
+func (nullConn_c34) SetReadDeadline(t time.Time) error  { return nil }
+func (nullConn_c34) SetWriteDeadline(t time.Time) error { return nil }
 
 // realHello builds the ClientHello handshake message a parrot would send.
 func realHello(id tls.ClientHelloID, r *Rng) []byte {
@@ -47,7 +47,7 @@ func realHello(id tls.ClientHelloID, r *Rng) []byte {
 	var raw []byte
 	// crypto/rand feeds the extension shuffle, GREASE and key shares: pin it so that a seed reproduces
 	withCryptoRand(r.U64(), func() {
-		u := tls.UClient(nullConn{}, cfg, id)
+		u := tls.UClient(nullConn_c34{}, cfg, id)
 		if err := u.BuildHandshakeState(); err != nil {
 			panic("BuildHandshakeState " + idName(id) + ": " + err.Error())
 		}
@@ -56,17 +56,17 @@ func realHello(id tls.ClientHelloID, r *Rng) []byte {
 	return raw
 }
 
-type rawExt struct {
+type rawExt_c34 struct {
 	t int
 	d []byte
 }
 
 type chParts struct {
 	vers, random, sid, suites, comp []byte
-	exts                            []rawExt
+	exts                            []rawExt_c34
 }
 
-func parseCH(msg []byte) (*chParts, bool) {
+func parseCH_c34(msg []byte) (*chParts, bool) {
 	if len(msg) < 4+2+32+1 || msg[0] != 1 {
 		return nil, false
 	}
@@ -115,7 +115,7 @@ func parseCH(msg []byte) (*chParts, bool) {
 		if len(b) < 4+n {
 			break
 		}
-		p.exts = append(p.exts, rawExt{t, append([]byte(nil), b[4:4+n]...)})
+		p.exts = append(p.exts, rawExt_c34{t, append([]byte(nil), b[4:4+n]...)})
 		b = b[4+n:]
 	}
 	return p, true
@@ -228,10 +228,10 @@ func mutateCH(r *Rng, p *chParts) (string, []byte) {
 			}
 		}
 		at := r.Intn(ne + 1)
-		p.exts = append(p.exts[:at:at], append([]rawExt{{0xfe0d, body}}, p.exts[at:]...)...)
+		p.exts = append(p.exts[:at:at], append([]rawExt_c34{{0xfe0d, body}}, p.exts[at:]...)...)
 		return "ech:" + fl, p.marshal()
 	case 12:
-		p.exts = append(p.exts, rawExt{Pick(r, []int{1234, 17513, 17613, 27, 0x4469, 65535, r.Intn(65536)}), r.Bytes(pickSize(r, false))})
+		p.exts = append(p.exts, rawExt_c34{Pick(r, []int{1234, 17513, 17613, 27, 0x4469, 65535, r.Intn(65536)}), r.Bytes(pickSize(r, false))})
 		return "addext", p.marshal()
 	case 13:
 		p.suites = Pick(r, [][]byte{nil, {0x13}, {0x13, 0x01}, {0xc0, 0x2f}, r.Bytes(2 * r.Intn(6)), append(append([]byte(nil), p.suites...), 0)})
@@ -252,7 +252,7 @@ func mutateCH(r *Rng, p *chParts) (string, []byte) {
 		}
 		return "versions", p.marshal()
 	case 17: // drop supported_versions: negotiate TLS 1.2 (plaintext follow-ups reach the server)
-		var out []rawExt
+		var out []rawExt_c34
 		for _, e := range p.exts {
 			if e.t != 43 {
 				out = append(out, e)
@@ -267,7 +267,7 @@ func mutateCH(r *Rng, p *chParts) (string, []byte) {
 		if r.Intn(3) == 0 {
 			body = body[:len(body)-1-r.Intn(len(body)-1)]
 		}
-		var out []rawExt
+		var out []rawExt_c34
 		for _, e := range p.exts {
 			if e.t != 41 {
 				out = append(out, e)
@@ -277,7 +277,7 @@ func mutateCH(r *Rng, p *chParts) (string, []byte) {
 		if r.Intn(4) == 0 {
 			at = r.Intn(len(out) + 1) // not last
 		}
-		p.exts = append(out[:at:at], append([]rawExt{{41, body}}, out[at:]...)...)
+		p.exts = append(out[:at:at], append([]rawExt_c34{{41, body}}, out[at:]...)...)
 		return "psk", p.marshal()
 	case 19: // key_share variants
 		for i := range p.exts {
@@ -295,7 +295,7 @@ func mutateCH(r *Rng, p *chParts) (string, []byte) {
 			}
 		}
 	case 20: // ALPS / compress_certificate style uTLS extensions with odd bodies
-		p.exts = append(p.exts, rawExt{Pick(r, []int{17513, 17613, 27}), Pick(r, [][]byte{nil, {0}, {0, 2, 1}, bVec16(bVec8([]byte("h2"))), {2, 0, 2}, r.Bytes(5)})})
+		p.exts = append(p.exts, rawExt_c34{Pick(r, []int{17513, 17613, 27}), Pick(r, [][]byte{nil, {0}, {0, 2, 1}, bVec16(bVec8([]byte("h2"))), {2, 0, 2}, r.Bytes(5)})})
 		return "utlsext", p.marshal()
 	}
 	// total-length inconsistencies on the marshalled message
@@ -355,11 +355,11 @@ func genC34Conn(r *Rng, i int, tier string) string {
 	desc := "none"
 	msg := hello
 	if i >= len(ids) { // the first pass sends every parrot's hello unmodified
-		if p, ok := parseCH(hello); ok {
+		if p, ok := parseCH_c34(hello); ok {
 			desc, msg = mutateCH(r, p)
 			// a second structural mutation now and then
 			if r.Intn(5) == 0 {
-				if p2, ok := parseCH(msg); ok {
+				if p2, ok := parseCH_c34(msg); ok {
 					d2, m2 := mutateCH(r, p2)
 					desc, msg = desc+"+"+d2, m2
 				}
